@@ -272,6 +272,9 @@ def _iterteetext(table, source, encoding, errors, template, prologue, epilogue):
             try:
                 hdr = next(it)
             except StopIteration:
+                if epilogue is not None:
+                    f.write(epilogue)
+                f.flush()
                 return
             yield tuple(hdr)
             flds = list(map(text_type, hdr))
